@@ -33,6 +33,29 @@ type walker struct {
 	types  []typeSite // every position that holds a value/reference type or a block type (retype pass)
 	nTypes int        // entries of the type section
 	secs   []*secInfo // every section with the extents of its vector entries (drop-dependency pass)
+	// declared signatures, read independently of wazero (signature oracle)
+	typeDefs  [][2][]byte // params, results of every type
+	funcTypes []uint64    // type index of every function (imports first)
+	expFuncs  map[string]uint64
+}
+
+// exportSigs returns the declared (params, results) of every exported function of a binary as this
+// walker reads them; ok is false when the walker does not understand the binary.
+func exportSigs(b []byte) (sigs map[string][2][]byte, ok bool) {
+	defer func() {
+		if recover() != nil {
+			sigs, ok = nil, false
+		}
+	}()
+	w := walkModule(b)
+	sigs = map[string][2][]byte{}
+	for name, fi := range w.expFuncs {
+		if fi >= uint64(len(w.funcTypes)) || w.funcTypes[fi] >= uint64(len(w.typeDefs)) {
+			return nil, false
+		}
+		sigs[name] = w.typeDefs[w.funcTypes[fi]]
+	}
+	return sigs, true
 }
 
 // secInfo locates one section and, for the vector sections whose entries other parts of the module
@@ -257,13 +280,15 @@ func walkModule(b []byte) *walker {
 					w.fail("functype")
 				}
 				pc := w.uleb("type.param.count")
+				var td [2][]byte
 				for j := uint64(0); j < pc; j++ {
-					w.typeByte("type.param")
+					td[0] = append(td[0], w.typeByte("type.param"))
 				}
 				rc := w.uleb("type.result.count")
 				for j := uint64(0); j < rc; j++ {
-					w.typeByte("type.result")
+					td[1] = append(td[1], w.typeByte("type.result"))
 				}
+				w.typeDefs = append(w.typeDefs, td)
 				w.nTypes++
 			}
 		case 2:
@@ -275,7 +300,7 @@ func walkModule(b []byte) *walker {
 				w.name("import.name.len")
 				switch k := w.byte_(); k {
 				case 0:
-					w.uleb("import.func.typeidx")
+					w.funcTypes = append(w.funcTypes, w.uleb("import.func.typeidx"))
 				case 1:
 					w.typeByte("import.table.type")
 					w.limits("import.table")
@@ -291,7 +316,7 @@ func walkModule(b []byte) *walker {
 		case 3:
 			c := w.uleb("func.count")
 			for i := uint64(0); i < c; i++ {
-				w.uleb("func.typeidx")
+				w.funcTypes = append(w.funcTypes, w.uleb("func.typeidx"))
 			}
 		case 4:
 			c := w.uleb("table.count")
@@ -322,9 +347,17 @@ func walkModule(b []byte) *walker {
 			cur.Count, cur.CountOff, cur.CountLen = c, w.fields[len(w.fields)-1].Off, w.fields[len(w.fields)-1].Len
 			for i := uint64(0); i < c; i++ {
 				cur.starts = append(cur.starts, w.p)
-				w.name("export.name.len")
-				w.byte_()
-				w.uleb("export.idx")
+				nl := w.uleb("export.name.len")
+				nm := string(w.b[w.p : w.p+int(nl)])
+				w.p += int(nl)
+				kind := w.byte_()
+				ei := w.uleb("export.idx")
+				if kind == 0 {
+					if w.expFuncs == nil {
+						w.expFuncs = map[string]uint64{}
+					}
+					w.expFuncs[nm] = ei
+				}
 			}
 		case 8:
 			w.uleb("start.funcidx")
